@@ -369,6 +369,8 @@ def translate_fn(repo, rel, fname, const_names):
         return tr.seq(stmts), res
     except Unsupported as ex:
         return bad("%s: %s" % (fname, ex))
+    except Exception as ex:          # anything the parser did not foresee is outside the subset, never a crash of the run
+        return bad("%s: translator error %s: %s" % (fname, type(ex).__name__, ex))
 
 FUNCS = [("pinToBytes", "src/pin.rs", "pin_to_bytes", ["MAX_PIN_LENGTH", "MIN_PIN_LENGTH"]),
          ("remapPinGrid", "src/pin.rs", "remap_pin_grid", ["MAX_PIN_LENGTH", "MIN_PIN_LENGTH"]),
